@@ -8,7 +8,8 @@ HERE = os.path.dirname(os.path.dirname(os.path.abspath(__file__)))
 CHECKS = {
     # id: (technique, level text, level note, design ref)
     'C05': ('Hypothesis-generated values x exhaustive unit pairs vs exact rational SI table; '
-            'metamorphic comparison oracle (far / same-up-to-rounding, both operand orders)',
+            'metamorphic comparison oracle (far / same-up-to-rounding, both operand orders); thorough tier adds a '
+            'coverage-guided atheris campaign on the comparison strategy (same oracle)',
             'No counterexample among generated conversions (all 607 ordered unit pairs per generated value) and '
             'generated comparison pairs; exploration, not proof. Right level: the property quantifies over a '
             'finite unit table (covered completely) times a continuous value range (sampled).',
@@ -17,7 +18,8 @@ CHECKS = {
             'images are unconstrained.',
             'DESIGN.md §4 C05'),
     'C06': ('exhaustive enumeration of operator cells (kinds x units x 4 operators) with Hypothesis-drawn '
-            'magnitudes vs an independent dimension table + SI table; inverse-law metamorphic checks',
+            'magnitudes vs an independent dimension table + SI table; inverse-law metamorphic checks; thorough tier '
+            'adds a coverage-guided atheris campaign on the random-cell strategy (same oracle)',
             'Every operator cell is evaluated for each generated magnitude tuple, so the finite part of the domain '
             '(which kinds/units/operators) is covered completely and only magnitudes are sampled; exploration.',
             'Trusts the dimension vectors / SI factors of vp/oracle/units_si.py; additive tolerance 1e-12 of the '
@@ -34,10 +36,12 @@ CHECKS = {
             'No counterexample among generated call sequences; every call is judged (accept/reject prediction, '
             'resulting state, untouched bystanders); exploration over histories.',
             'Trusts vp/oracle/relations.py; pairs the statement does not specify (worm/wheel with different helix, '
-            'wheel in a gear mating, conditions within 1e-9 of a threshold) are only checked for consistency.',
+            'elements whose parameters were re-expressed in place, conditions within 1e-9 of a threshold) are only '
+            'checked for consistency.',
             'DESIGN.md §4 C10'),
     'C19': ('Hypothesis-generated straight-line programs over a pool of live quantities with an invariant after '
-            'every step; boundary-aimed constructor arguments',
+            'every step; boundary-aimed constructor arguments; thorough tier adds a coverage-guided atheris campaign on '
+            'the program strategy (same oracle)',
             'No live constrained quantity violated its constraint after any step of any generated program '
             '(subnormal / huge / zero operands included); exploration over programs.',
             'Operands finite; exceptions of the documented classes are outcomes, not violations.',
@@ -118,9 +122,9 @@ CHECKS = {
             'No counterexample among generated (model, sensor, operator, threshold) tuples; exploration.',
             'Readings within 1e-9 of the threshold are not judged unless the tie is exact.',
             'DESIGN.md §4 C16'),
-    'C17': ('exhaustive product of optional-data subsets x 5 histories on small topologies + Hypothesis-generated '
+    'C17': ('exhaustive product of optional-data subsets x 7 histories on small topologies + Hypothesis-generated '
             'chains; invariant after every operation',
-            'Every optional-data configuration of the small topologies is covered completely for five histories; longer '
+            'Every optional-data configuration of the small topologies is covered completely for seven histories; longer '
             'chains sampled; exploration.',
             'Documented refusals (contact stress with an incomplete mate) are classified, not judged.',
             'DESIGN.md §4 C17'),
